@@ -143,6 +143,27 @@ func runNLVHistory(c *Ctx, ops []nlvOp) {
 				return
 			}
 			model = append(model, lv{tag, txt})
+		case 'X':
+			// Set(tag, Get(other tag)): the text handed in shares its bytes with another entry
+			other := nlvTags[(o.Tag+1)%len(nlvTags)]
+			src := n.Get(other)
+			if src == nil {
+				break
+			}
+			want := string(src)
+			if c.Guard("NaturalLanguageValues.Set", func() { _ = n.Set(tag, src) }) {
+				return
+			}
+			found := false
+			for k := range model {
+				if model[k].tag == tag {
+					model[k].text = want
+					found = true
+				}
+			}
+			if !found {
+				model = append(model, lv{tag, want})
+			}
 		case 'G':
 		}
 		c.Eval(1)
@@ -168,7 +189,7 @@ func dupFreeLists() [][]lv {
 			if used&(1<<t) != 0 {
 				continue
 			}
-			for _, x := range nlvTexts {
+			for _, x := range []string{"a", "b", ""} {
 				rec(append(cur, lv{nlvTags[t], x}), used|1<<t)
 			}
 		}
@@ -196,7 +217,7 @@ func pairSet(l []lv) string {
 
 func init() {
 	var alphabet []nlvOp
-	for _, op := range []byte{'S', 'A', 'D'} {
+	for _, op := range []byte{'S', 'A', 'D', 'X'} {
 		for t := range nlvTags {
 			for x := 0; x < 2; x++ {
 				alphabet = append(alphabet, nlvOp{op, t, x})
@@ -226,7 +247,7 @@ func init() {
 	lists := dupFreeLists()
 	Register(&Prop{
 		ID: "C19",
-		Rule: fmt.Sprintf("model: ordered list of (tag,text), Get = first match; exhaustive layer: all %d histories of length <= %d over {Set, Append, Add} x 3 tags (incl. the nil tag) x 2 texts, with Get for every tag, Count, First and the entries compared after every step, and the statement's Set clauses (Get(tag)=v, other tags and order unchanged, grows by <= 1) checked on each Set; equality layer: all %d x %d ordered pairs of duplicate-free lists over 3 tags x 3 texts (length <= 3, every order): a.Equals(b) <=> same set of pairs; random histories to length 30; distinct = history / list pair; non-trivial = history containing a Set on a present tag or a repeated tag, or lists of length >= 2",
+		Rule: fmt.Sprintf("model: ordered list of (tag,text), Get = first match; exhaustive layer: all %d histories of length <= %d over {Set, Append, Add, Set-with-a-text-obtained-from-Get (shared bytes)} x 3 tags (incl. the nil tag) x 2 texts, with Get for every tag, Count, First and the entries compared after every step, and the statement's Set clauses (Get(tag)=v, other tags and order unchanged, grows by <= 1) checked on each Set; equality layer: all %d x %d ordered pairs of duplicate-free lists over 3 tags x 3 texts incl. the empty text (length <= 3, every order): a.Equals(b) <=> same set of pairs; random histories to length 30; distinct = history / list pair; non-trivial = history containing a Set on a present tag or a repeated tag, or lists of length >= 2",
 			total, L, len(lists), len(lists)),
 		Layers: func(tier string) []Layer {
 			return []Layer{
@@ -275,7 +296,7 @@ func init() {
 					n := 5 + c.R.Intn(26)
 					ops := make([]nlvOp, n)
 					for i := range ops {
-						ops[i] = nlvOp{"SSADG"[c.R.Intn(5)], c.R.Intn(len(nlvTags)), c.R.Intn(len(nlvTexts))}
+						ops[i] = nlvOp{"SSADGXX"[c.R.Intn(7)], c.R.Intn(len(nlvTags)), c.R.Intn(len(nlvTexts))}
 					}
 					c.Distinct("h|"+nlvOpsString(ops), true)
 					runNLVHistory(c, ops)
